@@ -635,11 +635,10 @@ func VerifC11CloseTwice(withCall int) {
 	// the closers are released together (natively this makes them overlap as much as possible; the
 	// schedule-dependent counterexample is repeated there until it shows)
 	done := make(chan error, 2)
-	start := make(chan struct{})
+	var gate int32
 	for i := 0; i < 2; i++ {
-		go func() { <-start; done <- c.Close() }()
+		go func() { verifGate(&gate, 2); done <- c.Close() }()
 	}
-	close(start)
 	e1, e2 := <-done, <-done
 	verifAssert(e1 == nil && e2 == nil, "close-returns")
 	verifSettle()
